@@ -1,6 +1,7 @@
 import LiquerModel.Proto
 import LiquerModel.StateTypes
 import LiquerModel.Gen.StateTypes
+import LiquerModel.StateTypesCodec
 
 namespace Liquer.Handlers
 open Liquer Liquer.Proto Liquer.StateTypes
@@ -86,6 +87,31 @@ def stateTypes (cmd : String) (args : List String) : Option String :=
           | some d => "ok" ++ String.join (d.map (fun kv => " " ++ encChars kv.1 ++ "," ++ encScalar kv.2))
           | none => "none")
       | none => "BADINPUT"
+  -- `st.own <text|bytes> <enc|dec> <ext> <hex>`: the codec of the two own state types (`ownCodec`). `text enc`: hex = UTF-8 of the
+  -- string handed to `as_bytes`; otherwise hex = the raw bytes. Answer `ok <hex of the bytes / of the UTF-8 of the decoded string>` or `raise`
+  | "st.own", [t, op, e, h] => some <|
+      let hexL (b : List UInt8) : String := bytesToHex b.toByteArray
+      match decChars e with
+      | none => "BADINPUT"
+      | some e' =>
+        match t, op with
+        | "text", "enc" => (match decChars h with
+            | some s => (match ownCodec.enc identText e' (.text s) with
+                | some b => "ok " ++ hexL b
+                | none => "raise")
+            | none => "BADINPUT")
+        | "text", "dec" => (match ownCodec.dec identText e' (hexToBytes h).toList with
+            | some (.text s) => "ok " ++ encChars s
+            | some (.bytes _) => "BADTYPE"
+            | none => "raise")
+        | "bytes", "enc" => (match ownCodec.enc identBytes e' (.bytes (hexToBytes h).toList) with
+            | some b => "ok " ++ hexL b
+            | none => "raise")
+        | "bytes", "dec" => (match ownCodec.dec identBytes e' (hexToBytes h).toList with
+            | some (.bytes b) => "ok " ++ hexL b
+            | some (.text _) => "BADTYPE"
+            | none => "raise")
+        | _, _ => "BADINPUT"
   | _, _ => none
 
 end Liquer.Handlers
